@@ -4,7 +4,7 @@
    Model: Model/NameFormat.v (pybtex/bibtex/names.py, builtins.py format.name$);
    independent definitions (balanced, level1_letter_runs, legal_group, interleave, seps_rule): Spec/NameFormat.v. *)
 From Pybtex Require Import Base.Prelude Base.PyChar Base.PyStr Model.BibtexStr Model.Names Model.NameFormat
-  Spec.NameFormat Proofs.NameFormatParse Proofs.NameFormatFmt Proofs.NameFormatGrammar Proofs.NameFormatAbbrev Proofs.NameFormatRules.
+  Spec.NameFormat Proofs.NameFormatParse Proofs.NameFormatFmt Proofs.NameFormatGrammar Proofs.NameFormatAbbrev Proofs.NameFormatRules Proofs.NameFormatAbbrevBraced.
 
 (* the format parser terminates within its fuel and raises no foreign exception: every string
    is either parsed or rejected with a pybtex error *)
@@ -198,6 +198,25 @@ Theorem discretionary_tie_rule : forall np p c names out, np_char np = Some c ->
 Proof. exact discretionary_tie_rule_thm. Qed.
 Print Assumptions discretionary_tie_rule.
 
+(* hyphen-aware abbreviation of ANY balanced word (braces, special characters): the word is its
+   pieces joined by hyphens, every piece balanced (so the splitting hyphens are at brace level 0),
+   and the result interleaves the delimiter between the non-empty letters, each the first letter or
+   special character among the text characters of its stripped piece (C12: split_never_in_braces,
+   first_letter_spec) *)
+Theorem abbrev_hyphen_braced : forall w d out, Spec.BibtexStrSpec.balanced w -> bibtex_abbreviate w d = Ok out ->
+  (w = [] /\ out = []) \/
+  exists pieces letters,
+    w = join [c_hyphen] pieces /\ Forall Spec.BibtexStrSpec.balanced pieces /\
+    Forall2 letter_of pieces letters /\
+    out = join (delim_or_default d) (filter nonempty letters).
+Proof. exact abbrev_hyphen_braced_thm. Qed.
+Print Assumptions abbrev_hyphen_braced.
+
+(* C11's and C12's independent notions of brace balance are the same *)
+Theorem balanced_specs_agree : forall s, balanced s <-> Spec.BibtexStrSpec.balanced s.
+Proof. exact balanced_agree. Qed.
+Print Assumptions balanced_specs_agree.
+
 (* ---- non-vacuity ---- *)
 Example unbalanced_example : ~ balanced (s2l "{ff") /\ ~ balanced (s2l "ff}") /\ balanced (s2l "{{x}ff{.}~}").
 Proof. unfold balanced. vm_compute. repeat split; congruence. Qed.
@@ -253,4 +272,8 @@ Example empty_separator_example :
   format_name (s2l "Jean-Pierre Marie Xu") (s2l "{f}") = Ok (s2l "J.-P.~M", false) /\
   format_name (s2l "Jean-Pierre Marie Xu") (s2l "{ff{}}") = Ok (s2l "Jean-PierreMarie", false) /\
   format_name (s2l "Ab Cd Xu") (s2l "{f~}|{f~~}|{ff~}") = Ok (s2l "A.~C |A.~C~|Ab~Cd ", false).
+Proof. vm_compute. auto. Qed.
+Example abbrev_braced_example :
+  bibtex_abbreviate (s2l "{\\'E}douard-{Jean-Paul}") None = Ok (s2l "{\\'E}.-J") /\
+  Spec.BibtexStrSpec.balanced (s2l "{\\'E}douard-{Jean-Paul}").
 Proof. vm_compute. auto. Qed.
